@@ -110,7 +110,7 @@ def adoption_docs(tier):
             for mids in itertools.product(AA_MID, repeat=k):
                 body = "".join("<%s>" % m for m in mids)
                 out.append("<%s>%s<div>x</%s>y" % (f, body, f))
-                if k:
+                if k and (k <= depth_all or tier != "quick"):
                     out.append("<%s>%sx</%s>y" % (f, body, f))
     # two formatting elements closed in the wrong order, inside a table cell (marker), after text
     for f, g in itertools.permutations(["a", "b", "i"], 2):
@@ -168,7 +168,8 @@ def harvest(tier, rng):
         tags.append("fixed-xml")
     for s in adoption_docs(tier):
         lines.append("rcdom\tparse-html\t-\t" + hx(s))
-        tags.append("adoption")
+        # quick: the deepest layer is monitored on the real parser only (its traces are not replayed on the model)
+        tags.append("adoption-deep" if (tier == "quick" and s.count("<") > 6) else "adoption")
     for s in xml_alias_docs():
         lines.append("rcdom\tparse-xml\t-\t" + hx(s))
         tags.append("xml-alias")
@@ -199,7 +200,7 @@ def harvest(tier, rng):
             k = op.split(",")[0]
             stats["op_histogram"][k] = stats["op_histogram"].get(k, 0) + 1
             stats["calls"] += 1
-        if trace not in seen:
+        if trace not in seen and t != "adoption-deep":
             seen.add(trace)
             cases.append(("rcdom\tops\t" + trace, "replay-" + t))
     stats["distinct_traces"] = len(seen)
